@@ -166,8 +166,24 @@ func validItem(r *vlib.Rand, cfg pubCfg, scoped *pubRoute, seq int) pubItem {
 	if r.Chance(0.06) {
 		payload = r.Bytes(maxBody) // exactly at the limit: still acceptable
 	}
+	if r.Chance(0.06) && maxBody > 8 {
+		// in the top few percent below the limit: acceptable whatever the spelling of the encoding
+		payload = r.Bytes(maxBody - r.Intn(maxBody/30+2))
+	}
 	if r.Chance(0.8) {
-		it["payload_b64"] = base64.StdEncoding.EncodeToString(payload)
+		enc := base64.StdEncoding.EncodeToString(payload)
+		if r.Chance(0.25) && len(enc) > 0 {
+			// line-wrapped base64 (MIME / PEM style): CR and LF are not part of the data
+			width := vlib.Pick(r, []int{76, 64, 4, 1})
+			brk := vlib.Pick(r, []string{"\r\n", "\n"})
+			var b strings.Builder
+			for i := 0; i < len(enc); i += width {
+				b.WriteString(enc[i:minInt(i+width, len(enc))])
+				b.WriteString(brk)
+			}
+			enc = b.String()
+		}
+		it["payload_b64"] = enc
 	}
 	if r.Chance(0.5) {
 		it["headers"] = map[string]string{"Content-Type": "application/json", "X-N": fmt.Sprint(seq)}
